@@ -36,6 +36,18 @@ CLAIMED = {
  "C13": dict(cat="other", tech="formula conformance: specialisation of utils.bootstrap_ci per method, value numbering with shape bookkeeping dropped and masked gather/scatter lifted, named-axis role inference for the quantile branch",
    text="The derived level terms of quantile/bc/bca equal the documented formulas in normal form (alpha/2 and 1-alpha/2 over the replicate axis; z0 from #{theta<=theta_hat}/#{not NaN}; 2 z0 + z_alpha; acceleration nansum(d^3)/(6 nansum(d^2)^1.5) with 0 fallback; adjusted level where z0 finite; per-component nanquantile over axis 0) and the quantile branch delivers axes metric+alpha+(lower,upper). Ordering/nesting corollaries are not separately decided.",
    ref="DESIGN §4 C13"),
+ "C10": dict(cat="other", tech="alias and effect analysis on the abstract evaluator (storage roots through view operators; in-place writes, attribute stores, RNG reachability) over ~180 public callables; elementwise-dependence check of derived terms; alias forwarding",
+   text="Sufficient condition for 'no query mutates the object or caller arrays and repeats give identical results': over all public deterministic callables (symbolic arguments, every path) no subscript store / augmented assignment / out= / .sort() / shuffle reaches parameter or receiver storage, no attribute is re-bound outside constructors, no random draw is reachable (with a positive control). cm() writes (..., i, j) cells of a (*t.shape, 2, 2) buffer with terms elementwise in t; rates and thresholds are elementwise in their argument; aliases forward every parameter.",
+   ref="DESIGN §4 C10"),
+ "C14": dict(cat="other", tech="abstract evaluation of the replicate loop and CI assembly with stubbed sampler/metric (parametric loop iteration, virtual dispatch, type(self) resolution), entropy-source reachability over all sampling paths, plus the C13 formula rules",
+   text="Row j is the metric of the sample drawn in iteration j by the receiver's own bootstrap_sample with the caller's config and kwargs (both classes, name and callable metrics); bootstrap_ci passes replicates, metric(self, **kwargs), alpha and config.bootstrap_method to the (verified) formula; a callable sampler's result is used unchanged; all random draws come from the global numpy.random state.",
+   ref="DESIGN §4 C14"),
+ "C15": dict(cat="other", tech="abstract evaluation of roc() with the Scores API stubbed: multiset-preserving threshold construction, reversal-parity against the rate direction derived from cm(), count algebra, derived views; purity prerequisite of the setters",
+   text="FNR/FPR are the object's rates at the returned array; every supplied threshold and setter(supplied rate) is contained; the number of reversals after the ascending sort matches the direction of the x-axis metric for all 8 axis names x 4 configurations; default supports have nb_points (or one per scored sample) points; the 12 derived views are complements/aliases.",
+   ref="DESIGN §4 C15"),
+ "C16": dict(cat="other", tech="call conformance of all statically resolvable internal call sites; stubbed exploration of the band functions (joint metric, unpack order, rule-of-three arguments, mirrored envelope calls); exact evaluation of trigger conditions on the integer grid; envelope formula and effect analysis",
+   text="All 185 resolvable internal calls bind (the experimental band functions' helper calls included); each band function evaluates rates at its thresholds, bootstraps stack([FNR@FPR, FPR@FNR]) with the caller's alpha/config, unpacks in that order, gives the rule of three the denominator of the corrected rate, and builds bands from mirrored envelope calls; the correction triggers select exactly counts 0 and n; the envelope is min/max over rectangles whose closed x-interval contains the point, computed on copies. NaN-freeness under random samplers is not decided.",
+   ref="DESIGN §4 C16"),
  "C11": dict(cat="other", tech="path-by-path abstract evaluation of bootstrap_sample/_sample_indices over the built-in configuration matrix; count algebra in normal form; interval facts with guard refinement for delivered sizes; sortedness typestate; pos/neg mirror lint",
    text="Decides the structural clauses on every path: flags forwarded, each class drawn from the source's same class, requested strata sum to the source total (by_label: the four source strata), proportion sizes, delivered class sizes have lower bound 1, is_sorted only with provably ascending arrays, exact pos/neg duality of the sampling code, dynamic-method resolution. Unbiasedness and reachability in distribution are not decided.",
    ref="DESIGN §4 C11"),
